@@ -15,27 +15,41 @@ from .model import AnalysisError, Program, norm_stmt
 
 
 class Variant:
-    def __init__(self, vid, prop, module, func, old, new, rule=None, benign=False, why=""):
+    def __init__(self, vid, prop, module, func, old, new, rule=None, benign=False, why="", also=()):
         self.vid, self.prop, self.module, self.func = vid, prop, module, func
         self.old, self.new, self.rule, self.benign, self.why = old, new, rule, benign, why
+        self.also = list(also)       # further (module, func, old, new) edits applied together with the first
 
 
 def _norm(src):
     return " ".join(ast.unparse(ast.parse(textwrap.dedent(src))).split())
 
 
-def apply_variant(prog: Program, v: Variant):
-    """Returns the new module source, or None when the targeted construct no longer exists (not applicable)."""
-    m = prog.modules.get(v.module)
-    if m is None:
-        return None
+def _functions(tree):
+    """(qualname, node) of every function of a module, classes nested at most once"""
+    for n in tree.body:
+        if isinstance(n, (ast.FunctionDef, ast.AsyncFunctionDef)):
+            yield n.name, n
+        elif isinstance(n, ast.ClassDef):
+            for m in n.body:
+                if isinstance(m, (ast.FunctionDef, ast.AsyncFunctionDef)):
+                    yield n.name + "." + m.name, m
+                elif isinstance(m, ast.ClassDef):
+                    for k in m.body:
+                        if isinstance(k, (ast.FunctionDef, ast.AsyncFunctionDef)):
+                            yield n.name + "." + m.name + "." + k.name, k
+
+
+def apply_edit(source, func, old, new, vid="?"):
+    """Replaces the statements of `func` whose normalised text equals `old`; None when they are not there."""
+    tree = ast.parse(source)
     target = None
-    want = _norm(v.old)
-    for f in prog.all_functions():
-        if f.module is not m or f.qualname != v.func:
+    want = _norm(old)
+    for qual, fnode in _functions(tree):
+        if qual != func:
             continue
-        # longest run of consecutive statements whose normalised text equals `want`
-        for n in ast.walk(f.node):
+        # first run of consecutive statements whose normalised text equals `want`
+        for n in ast.walk(fnode):
             for fld in ("body", "orelse", "finalbody"):
                 blk = getattr(n, fld, None)
                 if not isinstance(blk, list):
@@ -58,9 +72,9 @@ def apply_variant(prog: Program, v: Variant):
     if target is None:
         return None
     first, last = target
-    lines = m.source.split("\n")
+    lines = source.split("\n")
     indent = lines[first.lineno - 1][:first.col_offset]
-    new = textwrap.dedent(v.new).strip("\n")
+    new = textwrap.dedent(new).strip("\n")
     if not new.strip():
         new = "pass"
     new_lines = [indent + ln if ln.strip() else ln for ln in new.split("\n")]
@@ -69,16 +83,30 @@ def apply_variant(prog: Program, v: Variant):
     try:
         ast.parse(src)
     except SyntaxError as e:
-        raise AnalysisError("self-test variant %s does not parse: %s" % (v.vid, e))
+        raise AnalysisError("self-test variant %s does not parse: %s" % (vid, e))
     return src
 
 
+def apply_variant(prog: Program, v: Variant):
+    """Returns {module: new source}, or None when a targeted construct no longer exists (not applicable)."""
+    out = {}
+    for module, func, old, new in [(v.module, v.func, v.old, v.new)] + v.also:
+        m = prog.modules.get(module)
+        if m is None:
+            return None
+        src = apply_edit(out.get(module, m.source), func, old, new, v.vid)
+        if src is None:
+            return None
+        out[module] = src
+    return out
+
+
 def _run_one(args):
-    vid, prop, module, src, root = args
+    vid, prop, overrides, root = args
     from .cli import run_property
     from .report import load_known, match_known
     try:
-        _, ctx = run_property(prop, "quick", 0, root=root, overrides={module: src}, write=False)
+        _, ctx = run_property(prop, "quick", 0, root=root, overrides=overrides, write=False)
     except AnalysisError as e:
         return vid, "error", [str(e)]
     except Exception as e:        # pragma: no cover
@@ -112,7 +140,7 @@ def run(prop, seed=0, verbose=True, only=None):
         if src is None:
             na.append(v.vid)
             continue
-        todo.append((v, (v.vid, v.prop, v.module, src, prog.root)))
+        todo.append((v, (v.vid, v.prop, src, prog.root)))
     results = {}
     if todo:
         workers = min(16, len(todo))
